@@ -255,11 +255,13 @@ func (d *Decoder) readTypedList(tag byte) (interface{}, error) {
 			return nil, newCodecError("readTypedList", err)
 		}
 
+		var v reflect.Value
 		if item == nil {
-			break
+			// a null element keeps the zero value of the element type (nil pointer, "", zero time)
+			v = reflect.Zero(aryType.Elem())
+		} else {
+			v = EnsureRawValue(item)
 		}
-
-		v := EnsureRawValue(item)
 		if isVariableArr {
 			aryValue = reflect.Append(aryValue, v)
 			holder.change(aryValue)
@@ -322,7 +324,11 @@ func (d *Decoder) readUntypedList(tag byte) (interface{}, error) {
 		}
 
 		if isVariableArr {
-			aryValue = reflect.Append(aryValue, EnsureRawValue(it))
+			if it == nil {
+				aryValue = reflect.Append(aryValue, reflect.Zero(aryValue.Type().Elem()))
+			} else {
+				aryValue = reflect.Append(aryValue, EnsureRawValue(it))
+			}
 			holder.change(aryValue)
 		} else {
 			if j >= len(ary) {
